@@ -66,7 +66,7 @@ func (c *vpWireConn) SetDeadline(t time.Time) error      { c.wdeadline = !t.IsZe
 func (c *vpWireConn) SetReadDeadline(t time.Time) error  { return nil }
 func (c *vpWireConn) SetWriteDeadline(t time.Time) error { c.wdeadline = !t.IsZero(); return nil }
 
-//vp:property C06
+//vp:property C06 C16
 //vp:set reads 2 2
 //vp:set chunk 2 5
 //vp:bounds backend->client over the real legacy OUT transport: a host stream delivered in `reads` socket reads of 0..chunk symbolic bytes each; at every socket write after the channel response the client either drains, or stalls after any strict prefix and then resumes, resets the connection, or (if the code armed a write deadline) lets the deadline expire
